@@ -548,6 +548,13 @@ def draw_op(rng: random.Random, eng: C09Engine, weights: Dict[str, float]) -> Li
         contained = [h for h, d in m.items() if d.get("db") == db and d["kind"] != "db"]
         pool = [h for h, d in m.items() if d["kind"] in ("table", "ref", "enum", "group", "sticky", "project")]
         h = rng.choice(contained) if contained and rng.random() < 0.6 else rng.choice(pool)
+        if rng.random() < 0.15:
+            # an equal object that lives in ANOTHER database (the same schema loaded twice): only this database
+            # may change, the other one keeps its element and the element its back pointer
+            lookalikes = [x for x in pool if m[x].get("db") not in (None, db)
+                          and any(m[y]["kind"] == m[x]["kind"] and w.strict(y) == w.strict(x) for y in contained)]
+            if lookalikes:
+                h = rng.choice(lookalikes)
         return ["delete", db, h, rng.random() < 0.5]
     if k == "rename":
         t = rng.choice(tables)
